@@ -1,12 +1,68 @@
 import IpaVerif.Model.Util
+import IpaVerif.Model.Hybrid
 /-! Line-protocol handlers for property C01 (model side). Import-free. -/
 namespace IpaVerif.Driver.C01
-open IpaVerif.Util
+open IpaVerif.Util IpaVerif.Hybrid
 
-/-- `some response` if the request belongs to this property, else `none`. -/
-def handle (_toks : List String) : Option String := none
+def widthsOf : String → Option Widths
+  | "prod" => some { bkW := 8, vW := 3, hvW := 32, buckets := 256 }
+  | "small" => some { bkW := 8, vW := 3, hvW := 8, buckets := 256 }
+  | _ => none
 
-/-- Property oracle on (request, implementation response): `some "holds"`, `some "fails <why>"`, or `none`. -/
-def oracle (_toks : List String) (_impl : String) : Option String := none
+def parseRec (s : String) : Option Rec :=
+  match s.splitOn ":" with
+  | ["i", k, bk] => do pure { key := ← k.toNat?, bk := ← bk.toNat?, v := 0 }
+  | ["c", k, v] => do pure { key := ← k.toNat?, bk := 0, v := ← v.toNat? }
+  | _ => none
+
+def parseRecs (s : String) : Option (List Rec) :=
+  if s = "-" then some [] else (s.splitOn ",").mapM parseRec
+
+/-- distribute records to shards according to the assignment (order within a shard = input order). -/
+def distribute (n : Nat) (assign : List Nat) (recs : List Rec) : List (List Rec) :=
+  (List.range n).map (fun d => ((assign.zip recs).filter (fun ar => ar.1 % n == d)).map (·.2))
+
+structure Req where
+  w : Widths
+  shards : Nat
+  assign : List Nat
+  recs : List Rec
+
+def parseReq (toks : List String) : Option Req :=
+  match toks with
+  | ["c01.e2e", _mode, shards, _pad, inst, assign, recs] => do
+      let w ← widthsOf inst
+      pure { w := w, shards := ← shards.toNat?, assign := ← parseNatList assign, recs := ← parseRecs recs }
+  | _ => none
+
+/-- aggregate_values_proof_chunk(256, 3) with the cfg(test) TARGET_PROOF_SIZE of the harness build. -/
+def aggChunk : Nat := 8
+
+def handle (toks : List String) : Option String :=
+  match toks with
+  | "c01.e2e" :: _ =>
+    match parseReq toks with
+    | none => some "bad-request"
+    | some r =>
+      let shards := distribute r.shards r.assign r.recs
+      -- known finding F8: with more than one shard, a shard that enters with no rows while others
+      -- have rows leaves the collective shuffle and the query never completes
+      match runOutcome r.w aggChunk shards with
+      | none => some "hang"
+      | some h => some (showNatList h)
+  | _ => none
+
+def oracle (toks : List String) (impl : String) : Option String :=
+  match toks with
+  | "c01.e2e" :: _ =>
+    match parseReq toks with
+    | none => some "unknown"
+    | some r =>
+      match parseNatList impl with
+      | some h =>
+        if h = spec r.w r.recs then some "holds"
+        else some "fails histogram differs from in-the-clear attribution of the input"
+      | none => some s!"fails no histogram produced ({impl.take 60}) although every input has an in-the-clear result"
+  | _ => none
 
 end IpaVerif.Driver.C01
